@@ -123,6 +123,7 @@ func (corSelf *CorDef[T]) YieldRef(out T) T {
 	var more bool
 	// fmt.Println(corSelf, "Wait for", "op")
 	op, more = <-corSelf.opCh
+	verifPoint("cor.yieldref.taken", corSelf)
 	// fmt.Println(corSelf, "Wait for", "op", "done")
 
 	if more && op != nil && op.cor != nil {
@@ -191,8 +192,10 @@ func (corSelf *CorDef[T]) IsStarted() bool {
 
 func (corSelf *CorDef[T]) close() {
 	corSelf.isClosed.Set(true)
+	verifPoint("cor.close.flagged", corSelf)
 
 	corSelf.closedM.Lock()
+	verifPoint("cor.close.locked", corSelf)
 	if corSelf.resultCh != nil {
 		close(corSelf.resultCh)
 	}
@@ -206,7 +209,9 @@ func (corSelf *CorDef[T]) doCloseSafe(fn func()) {
 	if corSelf.IsDone() {
 		return
 	}
+	verifPoint("cor.safe.checked", corSelf)
 	corSelf.closedM.Lock()
+	verifPoint("cor.safe.locked", corSelf)
 	fn()
 	corSelf.closedM.Unlock()
 }
